@@ -7,50 +7,52 @@ From Coq Require Import NArith Lia.
 Section Limits.
 Variable cx : ctx.
 Variable p : prog.
+Variable St : Type.
+Variable I : iface St.
+Notation run_loop := (grun_loop cx St I).
+Notation exec_insn := (gexec_insn cx St I).
 
-Definition lim_hit (L : N) (fuel pc ix : nat) (s : state) (bt : N) (st : stats) : Prop :=
-  fst (run_loop cx p (Some L) fuel pc ix s bt st) = RErrLimit.
 
 (* the limited run either reports the limit or IS the unlimited run (result and statistics) *)
 Lemma limit_prefix L : forall fuel pc ix s bt st,
-  fst (run_loop cx p (Some L) fuel pc ix s bt st) = RErrLimit \/
-  run_loop cx p (Some L) fuel pc ix s bt st = run_loop cx p None fuel pc ix s bt st.
+  fst (run_loop p (Some L) fuel pc ix s bt st) = RErrLimit \/
+  run_loop p (Some L) fuel pc ix s bt st = run_loop p None fuel pc ix s bt st.
 Proof.
-  induction fuel as [|f IH]; intros pc ix s bt st; cbn [run_loop]; auto.
+  induction fuel as [|f IH]; intros pc ix s bt st; cbn [grun_loop]; auto.
   destruct (nth_error (p_body p) pc) as [i|]; auto.
-  destruct (exec_insn cx i pc ix s) as [pc' ix' s'| s' | sv | | ]; auto.
-  destruct (stack s') as [|b r] eqn:Es; auto.
+  destruct (exec_insn i pc ix s) as [pc' ix' s'| s' | sv | | ]; auto.
+  destruct (i_count I s' =? 0) eqn:Es; auto.
   destruct (N.ltb L (N.succ bt)); [left; reflexivity|].
-  destruct (st_pop s') as [[[s'' pc'] ix']|]; [apply IH|right; reflexivity].
+  destruct (i_pop I s') as [[[s'' pc'] ix']|]; [apply IH|right; reflexivity].
 Qed.
 
 (* statistics only grow *)
 Lemma n_back_mono lim : forall fuel pc ix s bt st,
-  (n_back st <= n_back (snd (run_loop cx p lim fuel pc ix s bt st)))%N.
+  (n_back st <= n_back (snd (run_loop p lim fuel pc ix s bt st)))%N.
 Proof.
-  induction fuel as [|f IH]; intros pc ix s bt st; cbn [run_loop]; [simpl; lia|].
+  induction fuel as [|f IH]; intros pc ix s bt st; cbn [grun_loop]; [simpl; lia|].
   destruct (nth_error (p_body p) pc) as [i|]; [|simpl; lia].
-  destruct (exec_insn cx i pc ix s) as [pc' ix' s'| s' | sv | | ]; try (simpl; lia).
+  destruct (exec_insn i pc ix s) as [pc' ix' s'| s' | sv | | ]; try (simpl; lia).
   - etransitivity; [|apply IH]. simpl. lia.
-  - destruct (stack s') as [|b r]; [simpl; lia|].
+  - destruct (i_count I s' =? 0); [simpl; lia|].
     destruct (match lim with Some l => N.ltb l (N.succ bt) | None => false end); [simpl; lia|].
-    destruct (st_pop s') as [[[s'' pc'] ix']|]; [|simpl; lia].
+    destruct (i_pop I s') as [[[s'' pc'] ix']|]; [|simpl; lia].
     etransitivity; [|apply IH]. simpl. lia.
 Qed.
 
 (* if the unlimited run takes at most L backtracks, the limited run is that run *)
 Lemma limit_enough L : forall fuel pc ix s bt st,
   n_back st = bt ->
-  (n_back (snd (run_loop cx p None fuel pc ix s bt st)) <= L)%N ->
-  run_loop cx p (Some L) fuel pc ix s bt st = run_loop cx p None fuel pc ix s bt st.
+  (n_back (snd (run_loop p None fuel pc ix s bt st)) <= L)%N ->
+  run_loop p (Some L) fuel pc ix s bt st = run_loop p None fuel pc ix s bt st.
 Proof.
-  induction fuel as [|f IH]; intros pc ix s bt st Hb Hle; cbn [run_loop] in *; [reflexivity|].
+  induction fuel as [|f IH]; intros pc ix s bt st Hb Hle; cbn [grun_loop] in *; [reflexivity|].
   destruct (nth_error (p_body p) pc) as [i|]; [|reflexivity].
-  destruct (exec_insn cx i pc ix s) as [pc' ix' s'| s' | sv | | ]; [ | |reflexivity|reflexivity|reflexivity].
+  destruct (exec_insn i pc ix s) as [pc' ix' s'| s' | sv | | ]; [ | |reflexivity|reflexivity|reflexivity].
   - apply IH; auto.
-  - destruct (stack s') as [|b r] eqn:Es; [reflexivity|].
-    destruct (st_pop s') as [[[s'' pc'] ix']|] eqn:Ep.
-    + pose proof (n_back_mono None f pc' ix' s'' (N.succ bt) (bump_back (bump st (length (stack s))))) as Hm.
+  - destruct (i_count I s' =? 0) eqn:Es; [reflexivity|].
+    destruct (i_pop I s') as [[[s'' pc'] ix']|] eqn:Ep.
+    + pose proof (n_back_mono None f pc' ix' s'' (N.succ bt) (bump_back (bump st (i_count I s)))) as Hm.
       simpl in Hm. destruct (N.ltb_spec L (N.succ bt)); [lia|].
       apply IH; auto. simpl. lia.
     + simpl in Hle. destruct (N.ltb_spec L (N.succ bt)); [lia|reflexivity].
@@ -59,22 +61,32 @@ Qed.
 (* the limit error is reported only when the unlimited run really needs more backtracks *)
 Lemma limit_fires_only_if L : forall fuel pc ix s bt st,
   n_back st = bt ->
-  fst (run_loop cx p (Some L) fuel pc ix s bt st) = RErrLimit ->
-  (L < n_back (snd (run_loop cx p None fuel pc ix s bt st)))%N.
+  fst (run_loop p (Some L) fuel pc ix s bt st) = RErrLimit ->
+  (L < n_back (snd (run_loop p None fuel pc ix s bt st)))%N.
 Proof.
-  induction fuel as [|f IH]; intros pc ix s bt st Hb H; cbn [run_loop] in *; [discriminate|].
+  induction fuel as [|f IH]; intros pc ix s bt st Hb H; cbn [grun_loop] in *; [discriminate|].
   destruct (nth_error (p_body p) pc) as [i|]; [|discriminate].
-  destruct (exec_insn cx i pc ix s) as [pc' ix' s'| s' | sv | | ]; [ | |discriminate|discriminate|discriminate].
+  destruct (exec_insn i pc ix s) as [pc' ix' s'| s' | sv | | ]; [ | |discriminate|discriminate|discriminate].
   - apply IH; auto.
-  - destruct (stack s') as [|b r] eqn:Es; [discriminate|].
+  - destruct (i_count I s' =? 0) eqn:Es; [discriminate|].
     destruct (N.ltb_spec L (N.succ bt)) as [Hlt|Hge].
-    + destruct (st_pop s') as [[[s'' pc'] ix']|].
+    + destruct (i_pop I s') as [[[s'' pc'] ix']|].
       * eapply N.lt_le_trans; [|apply n_back_mono]. simpl. lia.
       * simpl. lia.
-    + destruct (st_pop s') as [[[s'' pc'] ix']|]; [|discriminate].
+    + destruct (i_pop I s') as [[[s'' pc'] ix']|]; [|discriminate].
       apply IH; auto. simpl. lia.
 Qed.
 
+End Limits.
+
+Section Bounded.
+Variable cx : ctx.
+Variable p : prog.
+Notation run_loop := (grun_loop cx state iface0).
+Notation exec_insn := (gexec_insn cx state iface0).
+Notation fnla := (Vm.fnla state iface0).
+Notation save_groups := (Vm.save_groups state iface0).
+Ltac red0 := cbn [iface0 i_push i_pop i_save i_get i_spush i_spop i_count i_cut i_result] in *.
 (* the branch stack never exceeds max_stack: pushes beyond it are StackOverflow *)
 Definition bounded (mx : nat) (s : state) : Prop := length (stack s) <= mx /\ max_stack s = mx.
 
@@ -122,14 +134,14 @@ Proof.
 Qed.
 Lemma bounded_fnla mx : forall fuel s tgt s', fnla fuel s tgt = Some s' -> bounded mx s -> bounded mx s'.
 Proof.
-  induction fuel as [|f IH]; intros s tgt s' H Hb; cbn [fnla] in H; [discriminate|].
+  induction fuel as [|f IH]; intros s tgt s' H Hb; cbn [Vm.fnla] in H; red0; [discriminate|].
   destruct (st_pop s) as [[[s1 ppc] ?]|] eqn:E; [|discriminate].
   pose proof (bounded_pop _ _ _ _ _ E Hb). destruct (ppc =? tgt); [inversion H; subst; auto|eauto].
 Qed.
 Lemma bounded_save_groups mx : forall n s caps sg s',
   save_groups s caps sg n = Some s' -> bounded mx s -> bounded mx s'.
 Proof.
-  induction n as [|n IH]; intros s caps sg s' H Hb; cbn [save_groups] in H.
+  induction n as [|n IH]; intros s caps sg s' H Hb; cbn [Vm.save_groups] in H; red0.
   - inversion H; subst; auto.
   - destruct (getcap caps (2 * sg)) as [a|]; [|eauto].
     destruct (getcap caps (2 * sg + 1)) as [b|]; [|eauto].
@@ -140,13 +152,13 @@ Qed.
 
 Lemma bounded_exec mx i pc ix s :
   bounded mx s ->
-  match exec_insn cx i pc ix s with
+  match exec_insn i pc ix s with
   | INext _ _ s' | IFailed s' => bounded mx s'
   | _ => True
   end.
 Proof.
-  intros Hb. destruct i; cbn [exec_insn]; auto.
-  - destruct (nth_error (saves s) 1); auto. destruct (st_get s 0) as [s0|]; auto.
+  intros Hb. destruct i; cbn [gexec_insn]; unfold push_or, save_or_panic; red0; auto.
+  - destruct (st_get s 1) as [v|]; auto. destruct (st_get s 0) as [s0|]; auto.
     destruct (match s0 with V a => match v with V b => b <? a | MAXV => false end
               | MAXV => match v with V _ => true | MAXV => false end end); auto.
     destruct (st_save s 0 v); auto.
@@ -154,32 +166,32 @@ Proof.
   - destruct (nth_error (c_text cx) ix) as [b|]; auto. destruct (b =? 10); auto.
   - destruct (assert_holds cx a ix); auto.
   - destruct (lit_at (c_text cx) ix v); auto.
-  - unfold push_or. destruct (st_push s y ix) eqn:E; auto. eapply bounded_push; eauto.
-  - unfold save_or_panic. destruct (st_save s slot (V ix)) eqn:E; auto. eapply bounded_save; eauto.
-  - unfold save_or_panic. destruct (st_save s slot (V 0)) eqn:E; auto. eapply bounded_save; eauto.
+  - destruct (st_push s y ix) eqn:E; auto. eapply bounded_push; eauto.
+  - destruct (st_save s slot (V ix)) eqn:E; auto. eapply bounded_save; eauto.
+  - destruct (st_save s slot (V 0)) eqn:E; auto. eapply bounded_save; eauto.
   - destruct (st_get s slot) as [[v|]|]; auto.
   - destruct (st_get s rep) as [[c|]|]; auto. destruct (N.eqb (N.of_nat c) hi); auto.
-    unfold save_or_panic. destruct (st_save s rep (V (c + 1))) as [s1|] eqn:E; auto.
+    destruct (st_save s rep (V (c + 1))) as [s1|] eqn:E; auto.
     pose proof (bounded_save _ _ _ _ _ E Hb). destruct (N.leb lo (N.of_nat c)); auto.
-    unfold push_or. destruct (st_push s1 next ix) eqn:E2; auto. eapply bounded_push; eauto.
+    destruct (st_push s1 next ix) eqn:E2; auto. eapply bounded_push; eauto.
   - destruct (st_get s rep) as [[c|]|]; auto. destruct (N.eqb (N.of_nat c) hi); auto.
-    unfold save_or_panic. destruct (st_save s rep (V (c + 1))) as [s1|] eqn:E; auto.
+    destruct (st_save s rep (V (c + 1))) as [s1|] eqn:E; auto.
     pose proof (bounded_save _ _ _ _ _ E Hb). destruct (N.leb lo (N.of_nat c)); auto.
-    unfold push_or. destruct (st_push s1 (S pc) ix) eqn:E2; auto. eapply bounded_push; eauto.
+    destruct (st_push s1 (S pc) ix) eqn:E2; auto. eapply bounded_push; eauto.
   - destruct (st_get s rep) as [[c|]|]; auto. destruct (st_get s chk) as [ck|]; auto.
     destruct (N.ltb lo (N.of_nat c) && val_eqb ck (V ix)); auto.
-    unfold save_or_panic. destruct (st_save s rep (V (c + 1))) as [s1|] eqn:E; auto.
+    destruct (st_save s rep (V (c + 1))) as [s1|] eqn:E; auto.
     pose proof (bounded_save _ _ _ _ _ E Hb). destruct (N.leb lo (N.of_nat c)); auto.
     destruct (st_save s1 chk (V ix)) as [s2|] eqn:E2; auto.
     pose proof (bounded_save _ _ _ _ _ E2 H).
-    unfold push_or. destruct (st_push s2 next ix) eqn:E3; auto. eapply bounded_push; eauto.
+    destruct (st_push s2 next ix) eqn:E3; auto. eapply bounded_push; eauto.
   - destruct (st_get s rep) as [[c|]|]; auto. destruct (st_get s chk) as [ck|]; auto.
     destruct (N.ltb lo (N.of_nat c) && val_eqb ck (V ix)); auto.
-    unfold save_or_panic. destruct (st_save s rep (V (c + 1))) as [s1|] eqn:E; auto.
+    destruct (st_save s rep (V (c + 1))) as [s1|] eqn:E; auto.
     pose proof (bounded_save _ _ _ _ _ E Hb). destruct (N.leb lo (N.of_nat c)); auto.
     destruct (st_save s1 chk (V ix)) as [s2|] eqn:E2; auto.
     pose proof (bounded_save _ _ _ _ _ E2 H).
-    unfold push_or. destruct (st_push s2 (S pc) ix) eqn:E3; auto. eapply bounded_push; eauto.
+    destruct (st_push s2 (S pc) ix) eqn:E3; auto. eapply bounded_push; eauto.
   - destruct (fnla _ s (S pc)) eqn:E; auto. eapply bounded_fnla; eauto.
   - destruct (goback cx ix count ix); auto.
   - destruct (st_get s slot) as [[lo|]|]; auto. destruct (st_get s (S slot)) as [[hi|]|]; auto.
@@ -200,20 +212,20 @@ Qed.
 
 Lemma peak_bound lim mx : forall fuel pc ix s bt st,
   bounded mx s -> peak st <= mx ->
-  peak (snd (run_loop cx p lim fuel pc ix s bt st)) <= mx.
+  peak (snd (run_loop p lim fuel pc ix s bt st)) <= mx.
 Proof.
-  induction fuel as [|f IH]; intros pc ix s bt st Hb Hp; cbn [run_loop]; [simpl; auto|].
-  assert (Hp' : peak (bump st (length (stack s))) <= mx).
+  induction fuel as [|f IH]; intros pc ix s bt st Hb Hp; cbn [grun_loop]; [simpl; auto|].
+  assert (Hp' : peak (bump st (i_count iface0 s)) <= mx).
   { simpl. destruct Hb as [Hb _]. apply Nat.max_lub; auto. }
   destruct (nth_error (p_body p) pc) as [i|]; [|simpl; auto].
   pose proof (bounded_exec mx i pc ix s Hb) as He.
-  destruct (exec_insn cx i pc ix s) as [pc' ix' s'| s' | sv | | ];
+  destruct (exec_insn i pc ix s) as [pc' ix' s'| s' | sv | | ];
     [ | |simpl; auto|simpl; auto|simpl; auto].
   - apply IH; auto.
-  - destruct (stack s') as [|b r] eqn:Es; [simpl; auto|].
+  - destruct (i_count iface0 s' =? 0) eqn:Es; [simpl; auto|].
     destruct (match lim with Some l => N.ltb l (N.succ bt) | None => false end); [simpl; auto|].
-    destruct (st_pop s') as [[[s'' pc'] ix']|] eqn:Ep; [|simpl; auto].
+    destruct (i_pop iface0 s') as [[[s'' pc'] ix']|] eqn:Ep; [|simpl; auto].
     apply IH; [eapply bounded_pop; eauto|simpl; auto].
 Qed.
 
-End Limits.
+End Bounded.
